@@ -272,6 +272,45 @@ def body_sync(S, t, part):
     S.note("third", part["third"])
 
 
+def body_player(S, t, part):
+    """a show started by a mode's show_player runs at mode priority + configured priority on every play, whatever ran before;
+    stopping it leaves the light as if it had never run"""
+    m = t.machine
+    l1 = m.lights["l1"]
+    prio = S.int("competing_priority", 0, 400)
+    S.assume(prio != 103)
+    m.events.post("start_sm")
+    t.advance_time_and_run(0.1)
+    if not m.modes["sm"].active:
+        raise Violation("harness", "start_sm", "mode sm did not start")
+    l1.color([0, 128, 0], priority=prio, key="competitor")
+    t.advance_time_and_run(0.05)
+
+    def colour():
+        c = l1.get_color()
+        return (c.red, c.green, c.blue)
+    for k in range(part["plays"]):
+        m.events.post("sm_play")
+        t.advance_time_and_run(0.5)          # inside step 0 of vshow3 (l1 blue for 1 s)
+        want = (0, 0, 255) if prio < 103 else (0, 128, 0)
+        if colour() != want:
+            raise Violation("show-runs-at-its-configured-priority", "ShowPlayer.play", "play %d: l1 is %s, expected %s (show at 100+3, competing entry at %s); stack %s" % (
+                k + 1, colour(), want, prio, [(e.key, e.priority) for e in l1.stack]))
+        m.events.post("sm_stop")
+        t.advance_time_and_run(0.1)
+        if colour() != (0, 128, 0):
+            raise Violation("effects-removed-when-show-stops", "ShowPlayer._stop", "after stop %d: l1 is %s, expected the competing entry's (0, 128, 0); stack %s" % (
+                k + 1, colour(), [(e.key, e.priority) for e in l1.stack]))
+    m.events.post("stop_sm")
+    t.advance_time_and_run(0.2)
+    l1.remove_from_stack_by_key("competitor")
+    t.advance_time_and_run(0.1)
+    if colour() != (0, 0, 0) or l1.stack:
+        raise Violation("effects-removed-when-show-stops", "RunningShow.stop", "after everything was removed l1 is %s, stack %s" % (colour(), [(e.key, e.priority) for e in l1.stack]))
+    S.note("nontrivial", True)
+    S.note("above", bool(prio > 103))
+
+
 def scenarios(tier):
     parts = [dict(control=None, loops=None, start_step="sym"), dict(control=None, loops=1, start_step=1), dict(control="stop", loops=-1, start_step=1),
              dict(control="pause_resume", loops=1, start_step=1), dict(control="advance", loops=1, start_step=1), dict(control="step_back", loops=1, start_step=1),
@@ -281,4 +320,5 @@ def scenarios(tier):
     pb = 80 if tier == "quick" else 400
     sparts = [dict(sync_ms=500, third=True), dict(sync_ms=500, third=False), dict(sync_ms=250, third=True)]
     return [Scenario("schedule", setup, body, parts, teardown=teardown, part_budget=pb, per_path_timeout=60),
-            Scenario("sync", setup, body_sync, sparts, teardown=teardown, part_budget=pb, per_path_timeout=60)]
+            Scenario("sync", setup, body_sync, sparts, teardown=teardown, part_budget=pb, per_path_timeout=60),
+            Scenario("show_player", setup, body_player, [dict(plays=2 if tier == "quick" else 4)], teardown=teardown, part_budget=pb, per_path_timeout=60)]
